@@ -65,6 +65,80 @@ CHECKS = {
                      "valid sequence.",
                 note="L<=5 quick (4 on the widest rules), L<=8 (6) thorough. Rules naming a child twice are outside the quantifier (none today).",
                 ref="DESIGN.md 3 C17"),
+
+    "C06": dict(engine="crosshair", technique=CH,
+                text="Per (codec, tree shape, namespace configuration, symbolic field) CrossHair confirms over all paths that dump-then-load reproduces every field, "
+                     "ids, order, parent links and registry entries, that re-dumping gives the identical document, the same for the legacy codec on its five fields, and "
+                     "that an upgraded legacy document loads as the same tree with empty namespace data.",
+                note="json is replaced by a deep-copying contract stub (CPython json trusted); one symbolic Optional[str] field per condition, length <= 3 quick / 4 "
+                     "thorough; names and dict keys concrete; trees obey the namespace-inclusion invariant.",
+                ref="DESIGN.md 3 C06"),
+    "C07": dict(engine="crosshair", technique=CH,
+                text="Per symbolic field (content, tails, attribute / qualified attribute / namespace values at two depths, mixed content, empty element; EML exporter: "
+                     "leaf contents and attribute values) CrossHair confirms that the exporter output is well-formed by an XML 1.0 recogniser written from the "
+                     "productions and decodes back to the tree's names, prefixes, attributes, bindings, order and text.",
+                note="Values: length <= 2 quick / 3 thorough over a class-representative alphabet. The full document is scanned for a concrete sentinel value at import; "
+                     "the symbolic value is decided compositionally (fallback: full scan). 'Parsed by two independent parsers' is not decided symbolically (C code); "
+                     "lxml and expat validate the recogniser on a corpus.",
+                ref="DESIGN.md 3 C07"),
+    "C08": dict(engine="crosshair", technique=CH,
+                text="Mirror half: the real _process_element/_format_extras run on a stub of the lxml element API with one symbolic text or tail, symbolic clean / "
+                     "collapse / literal flags and prefix re-declaration; CrossHair confirms names, prefixes, attribute/extras split, in-scope bindings, comment "
+                     "skipping, parent links, registration and the whitespace policy restated independently.",
+                note="etree.fromstring (libxml2) and the import-export-import loop are outside the symbolic claim (the latter follows from C07 + this by argument); "
+                     "1232 concrete documents go through the real parser and from_xml against the same oracle to validate the stub.",
+                ref="DESIGN.md 3 C08"),
+    "C09": dict(engine="crosshair", technique=CH,
+                text="Inductive step: from a symbolic pre-state (parent with K children named over {a,b}, grandchildren, bystander tree) each edit operation with "
+                     "arbitrary arguments is confirmed against an ordered-list model, incl. failure atomicity, registry effect of replace, shift's return value; query "
+                     "methods are confirmed against a document-order oracle on all start nodes of small shapes with symbolic names, query names and paths.",
+                note="K <= 4 quick / 6 thorough; index in [-8, 8]; shapes <= 5 nodes; paths <= 3 names. Caller obligation (one parent at a time) is the precondition.",
+                ref="DESIGN.md 3 C09"),
+    "C11": dict(engine="crosshair", technique=CH,
+                text="For each of 14 read-only operations and each kind of symbolic text field, CrossHair confirms that the deep state (all fields, child order, namespace "
+                     "dict contents and sharing pattern, parent links, registry keys) of a 12-node EML tree is identical before and after.",
+                note="One symbolic Optional[str] (<= 2 chars quick / 3 thorough, class-representative alphabet) per condition; json stubbed; logging disabled.",
+                ref="DESIGN.md 3 C11"),
+    "C12": dict(engine="crosshair", technique=CH,
+                text="CrossHair confirms that copying any subtree of a shape gives an equal tree with fresh registered ids, internal parent links and no shared "
+                     "containers, and that one symbolic edit (11 kinds) on either tree never shows in the other.",
+                note="Shapes <= 5 nodes (2 quick, 9 thorough), homogeneous and heterogeneous namespace maps, strings <= 3 / 4.",
+                ref="DESIGN.md 3 C12"),
+    "C13": dict(engine="crosshair", technique=CH,
+                text="Bounded histories (depth 2, thorough also 3) of declare/remove/attach over 4-node forests, and one operation from an ARBITRARY dict-sharing "
+                     "configuration (which nodes share one dict object pinned, contents symbolic), confirmed against a per-node dict model: effects stay in the subtree.",
+                note="Weak target (identity-shared heap): the solver drives a complete exploration of a finite operand space; partitions are part of the bound.",
+                ref="DESIGN.md 3 C13"),
+    "C14": dict(engine="crosshair", technique=CH,
+                text="Bounded histories (depth 2, thorough 3) over create, copy, attach, replace, delete, re-import, XML import, prune and expand, confirmed against a "
+                     "set-of-live-ids model: the registry equals the live set after every step.",
+                note="Weak target, bounded hard: first operation pinned per process; from_xml on one concrete document.",
+                ref="DESIGN.md 3 C14"),
+    "C15": dict(engine="crosshair", technique=CH,
+                text="For each planted offender kind and position (pinned) and a symbolic corruption of one kept node and symbolic strictness, CrossHair confirms prune "
+                     "never raises, leaves exactly the tree an independent prediction leaves, returns exactly the removed roots, cleans the registry and is idempotent.",
+                note="Base trees of 8 / 12 nodes; one plant quick, pairs thorough.",
+                ref="DESIGN.md 3 C15"),
+    "C16": dict(engine="crosshair", technique=CH,
+                text="For symbolic referrer kinds (plain / with trailing role, two sources, sources before or after) and fault placement, CrossHair confirms in-place "
+                     "ordered substitution by independent registered copies, unchanged sources, no references left, validity preserved, and atomic ValueError on faults.",
+                note="2 referrer slots quick, 3 thorough; first referrer kind(s) pinned per process.",
+                ref="DESIGN.md 3 C16"),
+    "C18": dict(engine="crosshair", technique=CH,
+                text="For two trees of one shape differing by one symbolic (node, value) edit of a pinned field kind, or by a shape edit, CrossHair confirms is_equal equals "
+                     "deep equality, is symmetric, and that a copy compares equal until edited.",
+                note="Shapes <= 4 nodes quick / 5 thorough; strings <= 3 / 5.",
+                ref="DESIGN.md 3 C18"),
+    "C19": dict(engine="crosshair", technique=CH,
+                text="Per evaluator group CrossHair confirms evaluate.tree/node never raise, append only (code, message, node) triples after earlier entries, leave the tree "
+                     "unchanged and produce exactly the warnings the restated recommendations imply, with counts on and around each threshold.",
+                note="Text-less gray zones are accepted either way; single-space separated words.",
+                ref="DESIGN.md 3 C19"),
+    "C20": dict(engine="crosshair", technique=CH,
+                text="TEXT half only: for every string up to the bound over {a, b, space, TAB, LF, NBSP, EM SPACE} CrossHair confirms normalize is idempotent, keeps the "
+                     "words and their order and leaves no NBSP, leading/trailing space or run of spaces.",
+                note="Length <= 4 quick / 6 thorough. The XML half is NOT decided: the XSLT stylesheet is interpreted by libxslt (C) - stylesheet mutations are invisible here.",
+                ref="DESIGN.md 3 C20"),
 }
 
 NOT_YET = "not claimed yet: check under construction in this round (see DESIGN.md)"
